@@ -529,7 +529,7 @@ impl TypeChecker {
                 }
             }
             While(c, b) => {
-                let mut diverges =
+                let diverges =
                     self.expr(scope, &ctx.with_type(Type::bool()), c)?;
 
                 let idx = self.while_counter;
@@ -540,7 +540,9 @@ impl TypeChecker {
                     .scope_graph
                     .wrap(scope, ScopeType::WhileBody(idx));
 
-                diverges |= self.block(body_scope, ctx, b)?;
+                // The body might never run, so the loop does not diverge just
+                // because its body does.
+                self.block(body_scope, ctx, b)?;
                 self.unify(&ctx.expected_type, &Type::unit(), id, None)?;
 
                 Ok(diverges)
@@ -549,7 +551,7 @@ impl TypeChecker {
                 let element_ty = self.fresh_var();
                 let list_ty = Type::list(&element_ty);
 
-                let mut diverges =
+                let diverges =
                     self.expr(scope, &ctx.with_type(list_ty), e)?;
 
                 let idx = self.for_counter;
@@ -562,7 +564,9 @@ impl TypeChecker {
 
                 self.insert_var(body_scope, name.clone(), element_ty)?;
 
-                diverges |= self.block(body_scope, ctx, b)?;
+                // The list might be empty, so the loop does not diverge just
+                // because its body does.
+                self.block(body_scope, ctx, b)?;
                 self.unify(&ctx.expected_type, &Type::unit(), id, None)?;
 
                 Ok(diverges)
